@@ -187,6 +187,26 @@ func (r *runner) run(c tcase) {
 			if !c.zeroPC {
 				pcs[0] = sites[c.site].pc()
 			}
+			if c.tm.Nanosecond()%2 == 1 {
+				// "every record": the line of THIS record may not depend on what the handler family wrote before.
+				// Warm the family up (root and derived handler) with records of the same instant / the same second /
+				// the neighbouring second rendered in the other zones, then judge only the record of the case.
+				for zi, z := range zones {
+					if z == c.tm.Location() {
+						continue
+					}
+					wt := c.tm.In(z).Add(time.Duration(zi-1) * 400 * time.Millisecond)
+					wrec := slog.NewRecord(wt, levels[(c.lvl+zi)%len(levels)], "warm-up", 0)
+					wrec.AddAttrs(slog.String("w", z.String()))
+					if zi%2 == 0 {
+						h.Handle(context.Background(), wrec)
+					} else {
+						hd.Handle(context.Background(), wrec)
+					}
+				}
+				r.e.Count("cases_after_warm_up_records", 1)
+				cap.writes = nil
+			}
 			rec := slog.NewRecord(c.tm, levels[c.lvl], c.msg, pcs[0])
 			rec.AddAttrs(c.attrs...)
 			timeTxt = c.tm.Format(time.RFC3339)
